@@ -352,7 +352,28 @@ def okS (ρ : Nat → Role) : Stmt → Bool
   | .ite c t f => okE ρ c && okS ρ t && okS ρ f
   | .loop v lo hi st b => loopRole (ρ v) && okE ρ lo && okE ρ hi && okE ρ st && okS ρ b
 
-/-- the call is a legal Fortran call inside the modelled subset -/
+/-- Fortran also allows a scalar dummy associated with a variable as DO variable -/
+def loopRoleLegal : Role → Bool
+  | .loc _ | .free => true
+  | .formal _ (.var _) => true
+  | _ => false
+
+def okSL (ρ : Nat → Role) : Stmt → Bool
+  | .skip => true
+  | .seq a b => okSL ρ a && okSL ρ b
+  | .assign x e => definableScalarRole (ρ x) && okE ρ e
+  | .store1 a i e => rank1Role (ρ a) && okE ρ i && okE ρ e
+  | .store2 a i j e => rank2Role (ρ a) && okE ρ i && okE ρ j && okE ρ e
+  | .ite c t f => okE ρ c && okSL ρ t && okSL ρ f
+  | .loop v lo hi st b => loopRoleLegal (ρ v) && okE ρ lo && okE ρ hi && okE ρ st && okSL ρ b
+
+/-- the call is a legal Fortran call inside the modelled subset (names used according to
+the rank of what they are bound to; dummies associated with expressions never defined) -/
+def Legal (c : Call) : Prop := okSL (roleOf (renOf c) c) c.body = true
+
+instance (c : Call) : Decidable (Legal c) := by unfold Legal; exact inferInstance
+
+/-- `Legal`, and additionally no formal argument is used as a DO variable -/
 def WellFormed (c : Call) : Prop := okS (roleOf (renOf c) c) c.body = true
 
 instance (c : Call) : Decidable (WellFormed c) := by unfold WellFormed; exact inferInstance
